@@ -124,10 +124,13 @@ class FamilyRun:
         self.lease_expiry_crossings = 0
         self.deq_short = 0
         self.deq_total = 0
+        self.kept_outs = []
 
     # -- running ---------------------------------------------------------
     def execute(self, histories, backends=("memory", "sqlite"), tag="q"):
         outs = Q.run_impl(self.ctx, self.info["hbin"], histories, backends=backends)
+        if tag.startswith("q"):
+            self.kept_outs.extend(zip(histories, outs))
         cases = []
         meta = []
         for hi, (h, per_backend) in enumerate(zip(histories, outs)):
